@@ -1207,7 +1207,7 @@ class UTPM(Ring, RawAlgorithmsMixIn):
             raise NotImplementedError('not implemented yet')
 
         if axis is None:
-            tmp = numpy.prod(self.data.shape[2:])
+            tmp = int(numpy.prod(self.data.shape[2:], dtype=int))
             return UTPM(numpy.sum(self.data.reshape(self.data.shape[:2] + (tmp,)), axis = 2))
         else:
             if axis < 0:
@@ -3299,7 +3299,9 @@ class UTPM(Ring, RawAlgorithmsMixIn):
         D,P = a.data.shape[:2]
 
         if out is None:
-            r = cls(numpy.zeros(a.data.shape, dtype=complex))
+            # n may crop or zero-pad the transformed axis
+            shp = numpy.fft.fft(a.data[0,0], n=n, axis=axis).shape
+            r = cls(numpy.zeros((D,P) + shp, dtype=complex))
 
         else:
             r, = out
@@ -3334,7 +3336,9 @@ class UTPM(Ring, RawAlgorithmsMixIn):
         D,P = a.data.shape[:2]
 
         if out is None:
-            r = cls(numpy.zeros(a.data.shape, dtype=complex))
+            # n may crop or zero-pad the transformed axis
+            shp = numpy.fft.ifft(a.data[0,0], n=n, axis=axis).shape
+            r = cls(numpy.zeros((D,P) + shp, dtype=complex))
 
         else:
             r, = out
